@@ -1028,7 +1028,13 @@ func runC18(ctx *core.Ctx) {
 			of := fmt.Sprintf("%s/s%d_%d.json", dir, j.si, j.w)
 			args := []string{"-prop", "C18", "-tier", ctx.Tier}
 			if !ctx.Deadline.IsZero() {
-				args = append(args, "-deadline", time.Until(ctx.Deadline).String())
+				// a shard started after the deadline has passed must still
+				// get one (a non-positive value would mean "none")
+				rem := time.Until(ctx.Deadline)
+				if rem < time.Second {
+					rem = time.Second
+				}
+				args = append(args, "-deadline", rem.String())
 			}
 			cmd := exec.Command(exe, args...)
 			mode := "b"
